@@ -476,8 +476,9 @@ class Ellipse:
         first_isophote = isophote_list[0]
         sma, step = first_isophote.sample.geometry.reset_sma(step)
 
-        # now, go from initial sma inwards towards center.
-        while True:
+        # now, go from initial sma inwards towards center (but never
+        # below the user-defined minimum).
+        while sma >= minsma:
             isophote = self.fit_isophote(sma, step, conver, minit, maxit,
                                          fflag, maxgerr, sclip, nclip,
                                          integrmode, linear, maxrit,
